@@ -256,7 +256,7 @@ def _build(item):
             names = {d["name"] for d in prog["decls"]}
             base = {"mode": "region", "decls": prog["decls"],
                     "dom": [[n, v] for n, v in DOM if n in names], "fills": FILLS,
-                    "subs": {"#none": {"formals": [], "locals": [], "body": []}}}
+                    "subs": prog["subs"] or {"#none": {"formals": [], "locals": [], "body": []}}}
             text = "; ".join(n.debug_string().strip().split("\n")[0] for n in nodes)[:160]
             case = dict(base, id=cid, body=prog["body"], inputs=inputs, outputs=outputs)
             out.append({"id": cid, "status": "ok", "case": case, "region": text, "src": src,
